@@ -510,6 +510,7 @@ func (m *Machine) doRecv(ch *ChanV, elem types.Type) (Value, bool) {
 				if o.ch == ch && o.send {
 					ch.buf = append(ch.buf, copyVal(o.val))
 					p.completed = i
+					m.hbRelease(p, &ch.vc) // (the parked sender's send: ordered before the receive of this value)
 					break
 				}
 			}
